@@ -1,5 +1,6 @@
 (* Scratch: C13 — the decoder never panics, and every decoded tree has the decoded shape `dsh` *)
 Require Import Parser ParserShape Render Decode.
+Require Export DecodedShape.
 From Coq Require Import List Ascii String ZArith Bool Lia.
 Import ListNotations.
 
@@ -62,45 +63,24 @@ Qed.
 Theorem decode_no_panic v s : decode o v <> DPanic s.
 Proof. apply unmarshal_no_panic. Qed.
 (* ---------- decoded shape ---------- *)
-Definition okb (d : expr -> bool) (v : value) : bool := match v with VNil => true | VExp x => d x | _ => false end.
-Fixpoint dsh (e : expr) : bool :=
-  ParserShape.is_leaf e ||
-  match e with
-  | E l op r _ _ =>
-    (match l with VExp a => dsh a | VList xs => forallb ParserShape.is_leaf xs | _ => false end) &&
-    (match r with
-     | VNil => true | VExp c => dsh c
-     | VBound mn mx _ => (match mn with VNil => true | VExp x => dsh x | _ => false end) &&
-                         (match mx with VNil => true | VExp x => dsh x | _ => false end)
-     | _ => false end)
-  end.
-
-Definition dshv (v : value) : bool :=
-  match v with VExp a => dsh a | VList xs => forallb ParserShape.is_leaf xs | _ => false end.
-Definition dshr (v : value) : bool :=
-  match v with
-  | VNil => true | VExp c => dsh c
-  | VBound mn mx _ => (match mn with VNil => true | VExp x => dsh x | _ => false end) &&
-                      (match mx with VNil => true | VExp x => dsh x | _ => false end)
-  | _ => false end.
 Lemma dsh_node l op r b f : dshv l = true -> dshr r = true -> dsh (E l op r b f) = true.
 Proof. intros Hl Hr. cbn [dsh]. unfold dshv, dshr in *. rewrite Hl, Hr. apply orb_true_r. Qed.
-Lemma leaf_dsh e : ParserShape.is_leaf e = true -> dsh e = true.
+Lemma leaf_dsh e : Shape.is_leaf e = true -> dsh e = true.
 Proof. intros H. destruct e. cbn [dsh]. rewrite H. reflexivity. Qed.
 
 Definition sh (r : dres) : Prop := forall e, r = DOk e -> dsh e = true.
 
-Lemma literal_to_expr_leaf s : ParserShape.is_leaf (literal_to_expr (VStr s)) = true.
+Lemma literal_to_expr_leaf s : Shape.is_leaf (literal_to_expr (VStr s)) = true.
 Proof. unfold literal_to_expr. destruct (_ && _); [reflexivity|]. destruct (_ || _); reflexivity. Qed.
 
-Lemma unmarshal_literal_leaf v e : unmarshal_literal o v = DOk e -> ParserShape.is_leaf e = true.
+Lemma unmarshal_literal_leaf v e : unmarshal_literal o v = DOk e -> Shape.is_leaf e = true.
 Proof.
   unfold unmarshal_literal. destruct (atoi (jraw v)); [intros H; inversion H; reflexivity|].
   destruct (parse_float o (jraw v)); [intros H; inversion H; reflexivity|].
   destruct v; try discriminate; intros H; inversion H; first [apply literal_to_expr_leaf | reflexivity].
 Qed.
 
-Lemma left_list_sh : forall xs acc v, forallb ParserShape.is_leaf acc = true -> left_list o xs acc = inl (Some v) -> dshv v = true.
+Lemma left_list_sh : forall xs acc v, forallb Shape.is_leaf acc = true -> left_list o xs acc = inl (Some v) -> dshv v = true.
 Proof.
   induction xs as [|x xs IH]; intros acc v Ha H; cbn [left_list] in H.
   - inversion H; subst. cbn [dshv]. rewrite forallb_forall in *. intros y Hy. apply Ha. apply in_rev. exact Hy.
